@@ -319,6 +319,15 @@ def kvsHold (db : DB) (i : Nat) (kvs : List (Nat × Nat × Val)) : Bool :=
 def selectByRow (T : Tree) (db : DB) (c : Nat) (kvs : List (Nat × Nat × Val)) (i : Nat) : Option Res :=
   if joinUp T db c i (byNeeded c kvs) && kvsHold db i kvs then some (get T db c i) else none
 
+/-! ## `by<Column>()` alternate-id fetch -/
+
+/-- `cls.by<Col>(v)` for an `alternateID` column declared by `cls` or an ancestor:
+    `InheritableSQLObject._findAlternateID` runs `list(cls.selectBy(**{col: v}))` on the class the
+    method is CALLED through and takes the first result (`SQLObjectNotFound` when there is none);
+    row `i` -/
+def byAltRow (T : Tree) (db : DB) (e a k : Nat) (v : Val) (i : Nat) : Option Res :=
+  selectByRow T db e [(a, k, v)] i
+
 /-! ## class-level bulk deletes -/
 
 /-- `cls.deleteMany(where)` / `cls.deleteBy(**kw)` as overridden by `InheritableSQLObject`:
